@@ -12,7 +12,7 @@ from pysmt.environment import push_env, pop_env
 from ..core.runner import Result
 from ..core import histworld as H
 
-ALL = ["F%d" % i for i in range(1, 18)]
+ALL = ["F%d" % i for i in range(1, 20)]
 _REF = {}
 
 
@@ -103,7 +103,7 @@ def minimise(hist, probe_names, bad):
 def run_shard(args):
     first, L, event_names, probe_names, seed = args
     res = Result()
-    events = H.query_events(event_names)
+    events = H.query_events(event_names, extra=H.EXTRA_EVENTS if L <= 2 else ())
     # second and later positions: the events whose own effect is already covered as a history of length 1
     # and that only read (printing, type query, four of the six size measures) are not repeated
     later = [e for e in events if not (e[0] in ("serialize", "smtlib", "get_type") or (e[0] == "size" and e[2] not in (0, 4)))]
@@ -128,7 +128,7 @@ def run(ctx):
     q = ctx.quick
     event_names = ["F9", "F11", "F15"] if q else ["F1", "F3", "F4", "F6", "F8", "F9", "F10", "F11", "F13", "F15", "F17"]
     L = 2 if q else (3 if False else 2)
-    events = H.query_events(event_names)
+    events = H.query_events(event_names, extra=H.EXTRA_EVENTS)
     ctx.rule = ("all histories of length <= %d over %d API events (build, type, simplify, substitute with 3 maps, "
                 "analyses, logic/theory incl. mutation of the returned Theory, six size measures, printing, parsing, "
                 "nnf/cnf/prenex/aig, %d constant spellings, FreshSymbol) each followed by the full probe set (%d probes) "
